@@ -78,7 +78,7 @@ class LifeRun:
     fresh_loops = 0
     nested = 0
 
-    def __init__(self, front, nroutes, dup=None, base=None):
+    def __init__(self, front, nroutes, dup=None, base=None, listarg=None):
         self.front = front
         self.nroutes = nroutes
         self.sess = Session()
@@ -99,11 +99,19 @@ class LifeRun:
         self.base = base
         if self.base:
             self.app.route(self.base)(lambda name, app_param, reply, context: None)
+        self.listarg = (LifeRun.nested % 2 == 1) if listarg is None else bool(listarg)
         for i in range(1, nroutes + 1):
+            # every second run hands the prefix over as a list of components that the caller goes on using (extends it,
+            # replaces its first component) as soon as route() has returned: a declared route is a value
+            path = (self.base if front == 'v2' else '') + '/' + ROUTE % i
+            arg = enc.Name.from_str(path) if self.listarg else path
             if front == 'v2':
-                self.app.route(self.base + '/' + ROUTE % i)(lambda name, app_param, reply, context: None)
+                self.app.route(arg)(lambda name, app_param, reply, context: None)
             else:
-                self.app.route('/' + ROUTE % i)(lambda name, param, app_param: None)
+                self.app.route(arg)(lambda name, param, app_param: None)
+            if isinstance(arg, list):
+                arg.append(enc.Component.from_str('later'))
+                arg[0] = enc.Component.from_str('zz')
         if self.base:
             self.app.detach_handler(self.base)
         self.problems = []
